@@ -53,6 +53,12 @@ def tt_round(E, s):
         x, xc = tt_input(E, 'x', N, R, 'float64', M)       # arbitrary sign-free entries (rank-1 profiles: every QR/SVD input is a row or a column)
     else:
         x, xc = so_tt_input(E, 'x', N, R, s['patterns'], M, sym_cores=s.get('sym_cores'))
+    if s.get('plus_zero'):
+        # the same tensor stored with inflated ranks: a structurally zero rank block in front of / behind the data (sum with the zero tensor)
+        z = E.tt.zeros(list(N)) if M is None else E.tt.zeros([(m, n) for m, n in zip(M, N)])
+        x = (z + x) if s['plus_zero'] == 'front' else (x + z)
+        xc = list(x.cores)
+        R = [int(r) for r in x.R]
     if s.get('eps') == 'default':
         eps = None
     elif s.get('eps') == 'zero':
